@@ -4,10 +4,10 @@
  * usage: opt_replay <tables-file> <scriptfile> [first]
  * tables-file (written by checks/c08.py from the header line TLC prints, i.e. from MC_OptParse.tla):
  *     I <table> <flags0-word> <int0>      (initial content of the boolean word: all 64 bits matter)
- *     O <table> <short-code> <kind> <pp:0|1> <deprecated:0|1> <bit> <long-name-codes>
+ *     O <table> <short-code> <kind> <pp:0|1> <deprecated:0|1> <array:0|1> <bit> <long-name-codes>
  * script:  S <sid>
  *          parse <table> <settings|-1> <argv-token|-> <leak-ok:T|F> <prelude> = ? ?   first call: builds everything
- *          parse <table> -1 - F <prelude> = ? ?                                      second call on the same argv
+ *          parse <table> <settings> - F <prelude> = ? ?                              a further call on the same argv, SAME argc
  * prelude (stale process state set up right before the call; the result must not depend on it):
  *   0 none, 1 errno=ERANGE, 2 errno=EINTR, 3 errno=EAGAIN, 4 an earlier parse of another command line with another
  *   table that ended in bad options (and the program reset the counter afterwards)
@@ -21,11 +21,11 @@
 #include <sys/time.h>
 
 #define MAXT 4
-#define MAXO 24
+#define MAXO 40
 #define MAXW 16
 #define GUARD 0xA5C3A5C3A5C3A5C3UL
 
-typedef struct { int sh, kind, pp, dep, bit; char lg[32]; } odef_t;
+typedef struct { int sh, kind, pp, dep, arr, bit; char lg[32]; } odef_t;
 enum { K_BOOL, K_INT, K_STR, K_ARGS, K_ABST, K_CNT };
 static odef_t defs[MAXT][MAXO];
 static int ndefs[MAXT];
@@ -37,18 +37,26 @@ static cell_t *cells;            /* [0] = shared boolean word, [1 + j] = target 
 static spifopt_t *table;
 static int cur_tb = -1, nopt;
 static char **av, **orig; static int ac;
-static struct { long calls; int has; char *val; } abst;
+/* abstract options: the handler is told the value only, so every abstract option of a table gets a handler of its own */
+#define MAXABST 8
+static struct { long calls; int has; char *val; } abst[MAXABST];
+static int abst_of[MAXO];        /* option index -> handler slot */
 static long nhelp;
 static sigjmp_buf jb; static volatile int armed;
 static char invmsg[256];
 
 static void help_handler(void) { nhelp++; }
-static void abstract_handler(spif_charptr_t v) {
-    abst.calls++;
-    if (abst.val) free(abst.val);
-    abst.val = v ? strdup((char *) v) : NULL;
-    abst.has = v != NULL;
+static void abstract_called(int k, spif_charptr_t v) {
+    abst[k].calls++;
+    if (abst[k].val) free(abst[k].val);
+    abst[k].val = v ? strdup((char *) v) : NULL;
+    abst[k].has = v != NULL;
 }
+#define AH(k) static void abstract_handler_##k(spif_charptr_t v) { abstract_called(k, v); }
+AH(0) AH(1) AH(2) AH(3) AH(4) AH(5) AH(6) AH(7)
+static spifopt_abstract_handler_t abstract_handlers[MAXABST] = {
+    abstract_handler_0, abstract_handler_1, abstract_handler_2, abstract_handler_3,
+    abstract_handler_4, abstract_handler_5, abstract_handler_6, abstract_handler_7 };
 static void on_vtalrm(int sig) { (void) sig; if (armed) { armed = 0; siglongjmp(jb, 1); } }
 
 static void load_tables(const char *path) {
@@ -61,11 +69,11 @@ static void load_tables(const char *path) {
             flags0_word[t - 1] = w; int0 = v;
         }
         else if (line[0] == 'O') {
-            int t, sh, pp, dep, bit, n, i; char kind[16], lst[512]; long cs[64]; odef_t *d;
-            if (sscanf(line + 1, "%d %d %15s %d %d %d %511s", &t, &sh, kind, &pp, &dep, &bit, lst) != 7) { fprintf(stderr, "bad table line %s", line); exit(2); }
+            int t, sh, pp, dep, arr, bit, n, i; char kind[16], lst[512]; long cs[64]; odef_t *d;
+            if (sscanf(line + 1, "%d %d %15s %d %d %d %d %511s", &t, &sh, kind, &pp, &dep, &arr, &bit, lst) != 8) { fprintf(stderr, "bad table line %s", line); exit(2); }
             if (t < 1 || t > MAXT || ndefs[t - 1] >= MAXO) { fprintf(stderr, "table overflow\n"); exit(2); }
             d = &defs[t - 1][ndefs[t - 1]++];
-            d->sh = sh; d->pp = pp; d->dep = dep; d->bit = bit;
+            d->sh = sh; d->pp = pp; d->dep = dep; d->arr = arr; d->bit = bit;
             d->kind = !strcmp(kind, "bool") ? K_BOOL : !strcmp(kind, "int") ? K_INT : !strcmp(kind, "str") ? K_STR
                     : !strcmp(kind, "args") ? K_ARGS : !strcmp(kind, "abst") ? K_ABST : K_CNT;
             n = vh_intlist(lst, cs, 31);
@@ -77,7 +85,7 @@ static void load_tables(const char *path) {
 }
 
 static void setup(int tb, const char *argvtok) {
-    int j, n = 0; const char *p;
+    int j, n = 0, nab = 0; const char *p;
     cur_tb = tb; nopt = ndefs[tb];
     cells = (cell_t *) malloc(sizeof(cell_t) * (size_t) (nopt + 1));
     table = (spifopt_t *) malloc(sizeof(spifopt_t) * (size_t) nopt);       /* exact size: redzone right behind the table */
@@ -93,11 +101,14 @@ static void setup(int tb, const char *argvtok) {
             case K_INT:  fl = SPIFOPT_FLAG_INTEGER; cells[1 + j].v = (unsigned long) int0; break;
             case K_STR:  fl = SPIFOPT_FLAG_STRING; break;
             case K_ARGS: fl = SPIFOPT_FLAG_ARGLIST; break;
-            case K_ABST: fl = SPIFOPT_FLAG_ABSTRACT; o->value = (void *) abstract_handler; break;
+            case K_ABST:
+                if (nab >= MAXABST) { fprintf(stderr, "too many abstract options\n"); exit(2); }
+                fl = SPIFOPT_FLAG_ABSTRACT; abst_of[j] = nab; o->value = (void *) abstract_handlers[nab++]; break;
             default:     fl = SPIFOPT_FLAG_COUNTER; break;
         }
         if (d->pp) fl |= SPIFOPT_FLAG_PREPARSE;
         if (d->dep) fl |= SPIFOPT_FLAG_DEPRECATED;
+        if (d->arr) fl |= SPIFOPT_FLAG_ARRAY;
         o->flags = (spif_uint16_t) fl;
     }
     /* argv: "[[45,97],[120]]" -> exact-size array, every word its own exact-size allocation */
@@ -120,7 +131,7 @@ static void setup(int tb, const char *argvtok) {
     }
     av[ac] = NULL;
     memcpy(orig, av, sizeof(char *) * (size_t) (ac + 1));
-    memset(&abst, 0, sizeof(abst)); nhelp = 0;
+    memset(abst, 0, sizeof(abst)); nhelp = 0;
     SPIFOPT_OPTLIST_SET(table);
     SPIFOPT_NUMOPTS_SET(nopt);
     SPIFOPT_ALLOWBAD_SET(255);          /* the limit is an 8-bit field: its largest value, so that limit handling never starts */
@@ -161,8 +172,7 @@ static void vh_end(void) {
     }
     for (j = 0; j < ac; j++) free(orig[j]);
     free(orig); free(av); free(cells); free(table);
-    if (abst.val) free(abst.val);
-    abst.val = NULL;
+    for (j = 0; j < MAXABST; j++) { if (abst[j].val) free(abst[j].val); abst[j].val = NULL; }
     SPIFOPT_OPTLIST_SET(NULL); SPIFOPT_NUMOPTS_SET(0);
     cur_tb = -1;
 }
@@ -240,8 +250,8 @@ static const char *vh_step(const vh_step_t *st, vh_sb *ret, vh_sb *state) {
                 }
                 break;
             case K_ABST:
-                sb_printf(state, "{has=%c,n=%ld,s=", abst.has ? 'T' : 'F', abst.calls);
-                if (abst.val) put_text(state, abst.val); else sb_puts(state, "[]");
+                sb_printf(state, "{has=%c,n=%ld,s=", abst[abst_of[j]].has ? 'T' : 'F', abst[abst_of[j]].calls);
+                if (abst[abst_of[j]].val) put_text(state, abst[abst_of[j]].val); else sb_puts(state, "[]");
                 sb_puts(state, ",ws=[]}");
                 break;
             default:
